@@ -1520,7 +1520,15 @@ impl<'a> Gen<'a> {
             // (defconst evaluation of functions containing let/assign forms is a listed finding too)
             Expr::Let(_, _, _) => false,
             Expr::Apply(a, b) => self.lambda_free(a) && self.lambda_free(b),
-            Expr::QQ(_) => true,
+            Expr::QQ(q) => self.qq_lambda_free(q),
+        }
+    }
+
+    fn qq_lambda_free(&self, q: &QQ) -> bool {
+        match q {
+            QQ::Data(_) => true,
+            QQ::Unquote(e) => self.lambda_free(e),
+            QQ::Cons(a, b) => self.qq_lambda_free(a) && self.qq_lambda_free(b),
         }
     }
 
